@@ -773,7 +773,10 @@ func (w *World) Finish() (problems []string) {
 }
 
 // iobGoroutines returns the ids of goroutines with an iobroker frame.
-func iobGoroutines() map[string]bool {
+func iobGoroutines() map[string]bool { return iobGoroutinesWith("internal/iobroker.") }
+
+// iobGoroutinesWith returns the ids of goroutines whose stack mentions frame.
+func iobGoroutinesWith(frame string) map[string]bool {
 	buf := make([]byte, 1<<20)
 	for {
 		n := runtime.Stack(buf, true)
@@ -785,7 +788,7 @@ func iobGoroutines() map[string]bool {
 	}
 	ids := map[string]bool{}
 	for _, g := range strings.Split(string(buf), "\n\n") {
-		if !strings.Contains(g, "internal/iobroker.") {
+		if !strings.Contains(g, frame) {
 			continue
 		}
 		hdr, _, _ := strings.Cut(g, "\n")
@@ -814,11 +817,24 @@ func iobStacks(ids map[string]bool) string {
 // Leaked polls (1 ms ... ~2 s in total) for goroutines with an iobroker frame
 // that were not there before the world was created and are still there at the
 // end of the back-off.  It returns their stacks ("" = none).
-func (w *World) Leaked() string {
+func (w *World) Leaked() string { return w.leaked(false) }
+
+// LeakedWhileRunning is Leaked for a broker that is still running: the
+// goroutines of Broker.Do itself are not counted.  It is meant for the moment
+// when every attempt has returned but the contexts of those that ended by
+// themselves are still alive (a caller's context may outlive the stream).
+func (w *World) LeakedWhileRunning() string { return w.leaked(true) }
+
+func (w *World) leaked(exceptDo bool) string {
 	d := time.Millisecond
 	var cur map[string]bool
 	for total := time.Duration(0); ; total += d {
 		cur = iobGoroutines()
+		if exceptDo {
+			for id := range iobGoroutinesWith("iobroker.(*Broker).Do") {
+				delete(cur, id)
+			}
+		}
 		for id := range cur {
 			if w.baseline[id] {
 				delete(cur, id)
